@@ -98,7 +98,7 @@ func (w *c06World) fork() *c06World {
 	return &c06World{t: w.t, tc: n, hub: w.hub, parent: w.parent, limTok: w.limTok, batchTok: w.batchTok, ns1: w.ns1, nsTok: w.nsTok}
 }
 
-var c06Kinds = []string{"secret", "secret-batch-child", "secret-in-namespace", "secret-wrapped", "secret-uselimited", "login", "login-wrapped", "create", "create-role", "create-role-path-suffix", "create-orphan", "create-wrapped"}
+var c06Kinds = []string{"secret", "secret-odd-path", "secret-batch-child", "secret-in-namespace", "secret-wrapped", "secret-uselimited", "login", "login-wrapped", "create", "create-role", "create-role-path-suffix", "create-orphan", "create-wrapped"}
 
 func (w *c06World) request(kind string) rr { return w.requestCtx(kind, w.tc.ctx) }
 
@@ -112,6 +112,9 @@ func (w *c06World) requestCtx(kind string, base context.Context) rr {
 	switch kind {
 	case "secret":
 		return tc.do(&logical.Request{Operation: logical.ReadOperation, Path: "rb/creds/a", ClientToken: w.parent})
+	case "secret-odd-path":
+		// a valid, routable path with consecutive dots inside its segments (not a relative path) and other oddities
+		return tc.do(&logical.Request{Operation: logical.ReadOperation, Path: "rb/creds/svc..backup/eu..1/a b/ü", ClientToken: w.parent})
 	case "secret-batch-child":
 		return tc.do(&logical.Request{Operation: logical.ReadOperation, Path: "rb/creds/a", ClientToken: w.batchTok})
 	case "secret-in-namespace":
